@@ -254,10 +254,31 @@ func ZZC02Audit() {
 	for _, l := range zzC04InferLiterals() {
 		texts = append(texts, "x := [1]\ny := [\"s\"]\nv := "+l+"\nprint (typeof v)\nprint x y\n")
 	}
+	// untyped empty literals of every nesting depth stored in an any, an inferred variable, an
+	// array element and passed to an any parameter: the value carries a complete concrete type
+	wantOut := map[int]string{}
+	for _, e := range zzEmpties {
+		wantOut[len(texts)] = "print:" + e.shape + "any " + e.shape + "any []" + e.shape + "any " + e.shape + "any\n"
+		texts = append(texts, "u:any\nu = "+e.lit+"\nw := "+e.lit+"\nz := ["+e.lit+"]\nprint (typeof u) (typeof w) (typeof z) (typeof z[0])\n")
+	}
 	k := zzChoice("text", len(texts))
 	p := &zzPlat{}
 	ev := NewEvaluator(p)
 	prog, err := zzParse(ev, texts[k])
+	if w, ok := wantOut[k]; ok {
+		zzAssert(err == nil, "C02 audit: empty literals are accepted in any, inferred and element positions")
+		if err == nil {
+			rerr := ev.Eval(prog)
+			if p.out() != w {
+				zzLog("C02 audit empties: want " + w + " got " + p.out())
+			}
+			zzAssert(rerr == nil && p.out() == w, "C02 audit: an untyped empty literal of any nesting depth gets a complete concrete type (its structure over any)")
+			zzAuditTypes(ev, prog, "text "+strconvItoa(k))
+		}
+		zzReach("audit-ok")
+		zzWitness("end")
+		return
+	}
 	if err != nil {
 		zzReach("audit-rejected")
 		zzWitness("end-rejected")
